@@ -542,7 +542,7 @@ func buildCorrSuite(ctx *Ctx, r *Rng, n int) {
 		}
 	}
 	for i := 0; i < n/4; i++ {
-		docs = append(docs, collisionDoc(r), hostileDoc(r))
+		docs = append(docs, collisionDoc(r), hostileDoc(r), bodylessDoc(r), similarRootDoc(r))
 	}
 	var fixtures [][]byte
 	for _, f := range fixtureFiles() {
@@ -558,4 +558,25 @@ func buildCorrSuite(ctx *Ctx, r *Rng, n int) {
 		docs = append(docs, lineMutant(r, fixtures[r.Intn(len(fixtures))]))
 	}
 	buildCorrespondence(ctx, docs, nil, "generated documents in random styles, single injected faults, line mutants, id-collision and hostile-name documents, the fixture files and their line mutants")
+}
+
+// similarRootDoc: paths that differ only in a parameter name, the parameter being the FIRST segment or a later one,
+// through methods and URL blocks; and controls with the same name
+func similarRootDoc(r *Rng) []byte {
+	names := []string{"id", "name", "x"}
+	a, b := names[r.Intn(3)], names[r.Intn(3)]
+	pre := []string{"", "/shops", "/a/b"}[r.Intn(3)]
+	suf1 := []string{"", "/items", "/u/{k}"}[r.Intn(3)]
+	suf2 := []string{"", "/orders", "/v"}[r.Intn(3)]
+	p1, p2 := pre+"/{"+a+"}"+suf1, pre+"/{"+b+"}"+suf2
+	block := func(p string, i int) string {
+		switch r.Intn(3) {
+		case 0:
+			return "GET " + p + "\n  200 any\n"
+		case 1:
+			return "URL " + p + "\n  POST\n    200 any\n"
+		}
+		return fmt.Sprintf("URL %s\n  Protocol json-rpc-2.0\n  Method m%d\n    Params\n    {}\n", p, i)
+	}
+	return []byte("JSIGHT 0.3\n" + block(p1, 1) + "TYPE @t\n{}\n" + block(p2, 2))
 }
